@@ -249,7 +249,7 @@ def run_shard(tmp, k, items, limit, configs):
 def part_outcomes(ctx, tmp):
     rnd = ctx.rng("mut")
     progs = base_programs(ctx)
-    n_mut = 420 if ctx.tier == "quick" else 3000
+    n_mut = 300 if ctx.tier == "quick" else 3000
     items = [{"id": f"base:{n}", "src": s, "how": "unchanged", "base": n} for n, s in progs.items()]
     names = sorted(progs)
     for i in range(n_mut):
@@ -266,6 +266,43 @@ def part_outcomes(ctx, tmp):
     with ThreadPoolExecutor(max_workers=nsh) as ex:
         rows = [r for rs in ex.map(lambda k: run_shard(tmp, k, [{"id": it["id"], "src": it["src"]} for it in shards[k]], 5, configs),
                                    range(nsh)) for r in rs]
+    return classify_rows(ctx, rows, items, "mut")
+
+
+ALL_CONFIGS = [[v, l] for v in (False, True) for l in ("none", "gas", "codesize", "O3")]
+
+
+def part_valid(ctx, tmp):
+    """accepted by semantic analysis => compilable by both code generators at every level"""
+    from vlib import c20_valid_gen
+    rnd = ctx.rng("valid")
+    items = []
+    for n, p in CORPUS.items():
+        if "layout" in p:
+            continue
+        items.append({"id": f"corpus:{n}", "files": p["files"], "target": p["target"], "how": "corpus", "base": n})
+    ex_root = REPO / "examples"
+    ex_files = {str(f.relative_to(ex_root)): f.read_text() for f in sorted(ex_root.rglob("*")) if f.suffix in (".vy", ".vyi", ".json")}
+    ex_list = [rel for rel in sorted(ex_files) if rel.endswith(".vy")]
+    if ctx.tier == "quick":
+        ex_list = rnd.sample(ex_list, 6)
+    for rel in ex_list:
+        if rel.endswith(".vy"):
+            items.append({"id": f"example:{rel}", "files": ex_files, "target": rel, "paths": [".", str(Path(rel).parent)],
+                          "how": "example", "base": rel})
+    for i in range(3 if ctx.tier == "quick" else 20):
+        items.append({"id": f"abi{i}", "src": c19_gen.gen_contract(rnd)["src"], "how": "c19_gen", "base": f"abi{i}"})
+    for i in range(24 if ctx.tier == "quick" else 600):
+        items.append({"id": f"valid{i}", "src": c20_valid_gen.gen_program(rnd), "how": "c20_valid_gen", "base": f"valid{i}"})
+    nsh = 3
+    shards = [items[k::nsh] for k in range(nsh)]
+    strip = lambda it: {k: v for k, v in it.items() if k in ("id", "src", "files", "target", "paths")}  # noqa
+    with ThreadPoolExecutor(max_workers=nsh) as ex:
+        rows = [r for rs in ex.map(lambda k: run_shard(tmp, 10 + k, [strip(it) for it in shards[k]], 8, ALL_CONFIGS), range(nsh)) for r in rs]
+    return classify_rows(ctx, rows, items, "valid")
+
+
+def classify_rows(ctx, rows, items, part):
     by_id = {it["id"]: it for it in items}
     stats = collections.Counter()
     internal = {}
@@ -277,6 +314,8 @@ def part_outcomes(ctx, tmp):
             stats["outcome:" + o["outcome"]] += 1
             if o["outcome"] == "user":
                 stats["user_with_location" if o.get("loc") else "user_without_location"] += 1
+                if not o.get("loc"):
+                    stats["noloc:" + o["exc"]] += 1
                 stats["diag:" + o["exc"]] += 1
             if o["outcome"] == "INTERNAL":
                 f = o.get("frame", "?:?")
@@ -289,18 +328,24 @@ def part_outcomes(ctx, tmp):
             runs = r["runs"]
             bad = {k: o for k, o in runs.items() if o["outcome"] == "user"}
             good = [k for k, o in runs.items() if o["outcome"] == "output"]
+            if bad and not good and part == "valid":
+                k0, o0 = sorted(bad.items())[0]
+                key = f"C20:backend-reject:{o0['exc']}:{o0.get('frame')}:{msg_class(o0.get('msg'))}"
+                internal.setdefault(key, (it, k0, dict(o0, note="accepted by semantic analysis, rejected by every back-end configuration")))
             if bad and good:
                 k0, o0 = sorted(bad.items())[0]
                 key = f"C20:backend-disagree:{o0['exc']}:{o0.get('frame')}:{msg_class(o0.get('msg'))}"
                 internal.setdefault(key, (it, k0, dict(o0, note=f"accepted by semantic analysis and compiled by {good}, rejected by {sorted(bad)}")))
     for key, (it, cfgname, o) in sorted(internal.items()):
         ctx.violation("failing-input", f"internal outcome {o['exc']} at {o.get('frame')} ({it['how']} of {it['base']})",
-                      {"source": it["src"], "config": cfgname, "outcome": o, "mutation": it["how"], "base_program": it["base"],
+                      {"source": it.get("src") or {"files": it.get("files") if it["how"] != "example" else "/repo/examples", "target": it.get("target")},
+                       "config": cfgname, "outcome": o, "mutation": it["how"], "base_program": it["base"],
                        "replay": "compile_code(source, settings=Settings(experimental_codegen=<venom>, optimize=<level>, enable_decimals=True))"},
                       key=key)
-    ctx.corr["distinct_internal"] = sorted(internal)
-    ctx.corr.update({k: int(v) for k, v in stats.items() if not k.startswith("diag:")})
-    ctx.corr["diagnostic_classes"] = {k[5:]: int(v) for k, v in stats.items() if k.startswith("diag:")}
+    ctx.corr[part + "_distinct_internal"] = sorted(internal)
+    ctx.corr[part] = {k: int(v) for k, v in stats.items() if not k.startswith(("diag:", "noloc:"))}
+    ctx.corr[part + "_diagnostics_without_location"] = {k[6:]: int(v) for k, v in stats.items() if k.startswith("noloc:")}
+    ctx.corr[part + "_diagnostic_classes"] = {k[5:]: int(v) for k, v in stats.items() if k.startswith("diag:")}
     return stats, len(items)
 
 
@@ -324,6 +369,28 @@ def probe_simplify_cfg(ctx):
         return type(e).__name__
     except VyperException as e:
         return "user:" + type(e).__name__
+
+
+def probe_arity(ctx):
+    from vyper.compiler import compile_code
+    from vyper.compiler.settings import Settings
+    src = ('@internal\ndef _f(p: uint256) -> uint256:\n    raise "no"\n\n'
+           '@external\ndef g(x: uint256) -> uint256:\n    return self._f(x)\n')
+    res = {}
+    for venom in (False, True):
+        try:
+            with warnings.catch_warnings():
+                warnings.simplefilter("ignore")
+                compile_code(src, output_formats=["bytecode"], settings=Settings(experimental_codegen=venom))
+            res[venom] = "output"
+        except Exception as e:  # noqa
+            res[venom] = f"{type(e).__name__}: {str(e)[:120]}"
+    if res[False] == "output" and res[True] != "output":
+        ctx.violation("failing-input", "venom rejects a call to an always-raising internal function with a return type (legacy compiles)",
+                      {"source": src, "legacy": res[False], "venom": res[True],
+                       "replay": "compile_code(source, settings=Settings(experimental_codegen=True))"},
+                      key="C20:venom-invoke-arity-always-raising-internal")
+    return res
 
 
 def probe_dense(ctx):
@@ -410,6 +477,8 @@ def run(ctx):
     nv0 = len(ctx.violations) + len(ctx.known_hits)
     try:
         stats, n_items = part_outcomes(ctx, tmp)
+        vstats, n_valid = part_valid(ctx, tmp)
+        r_arity = probe_arity(ctx)
         r_cfg = probe_simplify_cfg(ctx)
         n_dense = 0
         if (coqrun.COQ / "C20" / "DenseTable.vo").exists():
@@ -435,15 +504,15 @@ def run(ctx):
                            "override": {"x": {"type": "uint256[2**3]", "slot": 0, "n_slots": 8}},
                            "replay": "compile_code(source, storage_layout_override=JSONInput(...override...)) or vyper --storage-layout-file"},
                           key="C20:override-type-string-mismatch-panic")
-        ctx.corr["probes"] = {"disable_simplify_cfg": r_cfg, "override_huge_array": r_huge, "override_type_string": r_ty}
+        ctx.corr["probes"] = {"venom_always_raising_internal": r_arity, "disable_simplify_cfg": r_cfg, "override_huge_array": r_huge, "override_type_string": r_ty}
     finally:
         import shutil
         shutil.rmtree(tmp, ignore_errors=True)
     if not b["ok"] and len(ctx.violations) + len(ctx.known_hits) == nv0:
         ctx.violation("theorem-broken", f"{b.get('failed_lemma')} in {b['file']}",
                       {"theorem": b.get("failed_lemma"), "file": b["file"], "coq_output": b["out"][-1500:]})
-    ctx.corr["evaluations"] = int(stats["compilations"]) + n_dense + 3
-    ctx.corr["distinct_nontrivial"] = n_items + n_dense + 3
+    ctx.corr["evaluations"] = int(stats["compilations"]) + int(vstats["compilations"]) + n_dense + 4
+    ctx.corr["distinct_nontrivial"] = n_items + n_valid + n_dense + 4
     ctx.corr["rule"] = "distinct source texts (unchanged + mutated) each compiled by the front end and up to 4 (quick) / 8 back-end configs; dense id sets; 3 targeted probes"
     ctx.extra["explanation"] = (
         "PROVED (Coq): dense_table_refuted -- a vm_compute witness of 5 valid method ids on which the model of "
@@ -452,9 +521,13 @@ def run(ctx):
         f"({int(stats['compilations'])} compilations, 5 s limit, fresh worker processes): {int(stats['outcome:output'])} output, "
         f"{int(stats['outcome:user'])} user-facing diagnostics ({int(stats['user_with_location'])} with a source location, "
         f"{int(stats['user_without_location'])} without), {int(stats['outcome:INTERNAL'])} internal outcomes in "
-        f"{len(ctx.corr.get('distinct_internal', []))} distinct (exception, frame) classes; {int(stats['accepted_by_analysis'])} texts accepted "
-        "by semantic analysis were compiled by every back-end configuration tried (disagreements are reported).")
-    ctx.extra["exploration_counts"] = {k: int(v) for k, v in stats.items() if not k.startswith("diag:")}
+        f"{len(ctx.corr.get('mut_distinct_internal', []))} distinct (exception, frame, message) classes; {int(stats['accepted_by_analysis'])} mutated texts accepted "
+        f"by semantic analysis were compiled by the 4 back-end configurations (disagreements reported). VALID-PROGRAM part: {n_valid} programs "
+        f"(corpus incl. multi-module, /repo/examples, ABI-type generator, statement-level feature generator), {int(vstats['accepted_by_analysis'])} accepted by "
+        f"semantic analysis, each compiled by both pipelines at all 4 levels ({int(vstats['compilations'])} compilations): "
+        f"{len(ctx.corr.get('valid_distinct_internal', []))} distinct failing classes.")
+    ctx.extra["exploration_counts"] = {"mutation": {k: int(v) for k, v in stats.items() if ":" not in k or k.startswith("outcome:")},
+                                       "valid": {k: int(v) for k, v in vstats.items() if ":" not in k or k.startswith("outcome:")}}
     ctx.trusted += ["Coq 8.16.1 kernel + vm_compute", "hand model coq/C20/DenseTable.v tied by differential each run",
                     "exception taxonomy of vyper/exceptions.py (VyperException = user-facing, VyperInternalException = internal)"]
     ctx.assumptions += ["5 s wall-time limit per compilation stands for 'unbounded time'"]
